@@ -58,6 +58,9 @@ def _decide_table(ctx, m: ScanModel, loop, expected: Val, rule, label, fi, const
         if not live:
             if extra:
                 return ctx.unknown(rule, label, f"no store when {u.show(asg)} (conditions outside the documented vocabulary: {extra[:3]})", fi.loc(), fi.qualname, construct)
+            if m.result_stores_outside_loops():
+                return ctx.unknown(rule, label, f"no store in this loop when {u.show(asg)}; part of the result is written by slice / vectorised stores outside the loops",
+                                   fi.loc(), fi.qualname, construct)
             return ctx.fail(rule, label, f"nothing is stored when {u.show(asg)}", fi.loc(), fi.qualname, construct)
         got = u.value(live[-1].data['value'], asg)
         if not (isinstance(got, Rat) and isinstance(want, Rat) and got == want):
@@ -322,6 +325,9 @@ def check_closed_form(ctx, kind: str, fi, fill_true_only=False) -> Optional[str]
             return f"result is not an element-wise array value: {show(res, 160)}"
         if any(sym.ATOMS.head(a_) not in ('sym',) for a_ in sym.all_atoms(res.length)):
             return f"the extent of the result is not derivable: {sym.show(res.length)[:120]}"
+        carried = [t for t in walk_vals(res) if isinstance(t, Term) and t.head in ('loopvar', 'loopstate', 'stored', 'mutated')]
+        if carried:
+            return f"the result depends on loop-carried state ({show(carried[0], 60)}): a scan, not an element-wise form"
         forms[fill] = (res, ev)
     label = f"{kind} (vectorised implementation)"
     ctx.rule('C10.5', 'a vectorised implementation of a search (counting / binary search instead of the scan) is decided on its element-wise closed form: on every '
